@@ -65,6 +65,10 @@ type caseSpec struct {
 	Reqs []reqSpec `json:"reqs"`
 	// the requests arrive as the events of ONE transaction (yoda's handleTransaction), not one by one
 	ViaTx bool `json:"viaTx"`
+	// after the requests above are done the owner of data source EditDS replaces its executable (MsgEditDataSource), and
+	// the running daemon gets one more request that uses it: the report must come from the NEW executable
+	EditDS uint64   `json:"editDS"`
+	After  *reqSpec `json:"after"`
 }
 
 func fileOf(d dsSpec) []byte {
@@ -105,6 +109,16 @@ func genCase(r *fx.Rng, idx int) caseSpec {
 		c.Reqs = append(c.Reqs, rq)
 	}
 	c.ViaTx = r.Chance(1, 3)
+	if r.Chance(1, 3) {
+		c.EditDS = uint64(r.Range(1, nds))
+		rq := reqSpec{RID: uint64(10*idx + 9), Selected: true}
+		for k := 0; k < r.Range(1, 2); k++ {
+			rs := rawSpec{EID: uint64(k + 1), DS: c.EditDS, Calldata: fmt.Sprintf("cd-after-%d", k), Exec: "ok", Code: uint32(r.PickInt(0, 0, 1))}
+			rs.Output = hex.EncodeToString(r.Bytes(r.PickInt(1, 10, 100)))
+			rq.Raws = append(rq.Raws, rs)
+		}
+		c.After = &rq
+	}
 	return c
 }
 
@@ -274,6 +288,49 @@ func child(specPath string, from int) {
 			}
 			msgs = vc.PendingReports()
 		}
+		if cs.After != nil && !hung {
+			// the owner replaces the executable of data source EditDS; the node serves the new file
+			var d dsSpec
+			for _, x := range cs.DS {
+				if x.ID == cs.EditDS {
+					d = x
+				}
+			}
+			d.Fill += 101
+			d.FileLen = 64
+			file2 := fileOf(d)
+			name2 := filecache.GetFilename(file2)
+			ds2 := types.NewDataSource(bandtesting.Owner.Address, fmt.Sprintf("ds%d", d.ID), "", name2, sdk.NewCoins(), bandtesting.Treasury.Address)
+			app.OracleKeeper.SetDataSource(ctx, types.DataSourceID(d.ID), ds2)
+			key := string(types.DataSourceStoreKey(types.DataSourceID(d.ID)))
+			node.mu.Lock()
+			node.store[key] = app.AppCodec().MustMarshal(&ds2)
+			delete(node.fail, key)
+			node.files[name2] = file2
+			node.mu.Unlock()
+			sc.mu.Lock()
+			sc.files[d.ID] = file2
+			var raws []types.RawRequest
+			for _, rs := range cs.After.Raws {
+				raws = append(raws, types.NewRawRequest(types.ExternalID(rs.EID), types.DataSourceID(rs.DS), []byte(rs.Calldata)))
+				sc.byCD[rs.Calldata] = rs
+			}
+			sc.mu.Unlock()
+			req := types.NewRequest(1, []byte("calldata"), []sdk.ValAddress{other, val}, 1, 1, time.Unix(1, 0), "client", raws, nil, 100000, types.ENCODER_UNSPECIFIED,
+				bandtesting.Alice.Address.String(), sdk.NewCoins())
+			app.OracleKeeper.SetRequest(ctx, types.RequestID(cs.After.RID), req)
+			node.mu.Lock()
+			node.store[string(types.RequestStoreKey(types.RequestID(cs.After.RID)))] = app.AppCodec().MustMarshal(&req)
+			node.mu.Unlock()
+			done2 := make(chan struct{})
+			go func() { vc.HandleRequest(types.RequestID(cs.After.RID)); close(done2) }()
+			select {
+			case <-done2:
+			case <-time.After(8 * time.Second):
+				hung = true
+			}
+			msgs = append(msgs, vc.PendingReports()...)
+		}
 		res := map[uint64][]any{}
 		for _, m := range msgs {
 			reps := append([]types.RawReport{}, m.RawReports...)
@@ -408,6 +465,26 @@ func main() {
 				out = fx.M{"reports": []any{}, "crashed": true, "panic": msg}
 			}
 			tr.Op(fx.M{"op": "request", "rid": rq.RID, "selected": rq.Selected, "raws": raws, "concurrent": len(cs.Reqs), "out": out})
+		}
+		if cs.After != nil {
+			rq := *cs.After
+			var raws []any
+			for _, rs := range rq.Raws {
+				raws = append(raws, fx.M{"eid": rs.EID, "ds": rs.DS, "calldata": rs.Calldata, "exec": rs.Exec, "code": rs.Code, "output": rs.Output,
+					"hashOk": true, "loadable": true, "fileLen": 64, "cached": false})
+			}
+			out := fx.M{"reports": byRID[rq.RID], "crashed": false}
+			if hungCases[cs.Idx] && byRID[rq.RID] == nil {
+				out["hung"] = true
+			}
+			if byRID[rq.RID] == nil {
+				out["reports"] = []any{}
+			}
+			if msg, ok := crashed[cs.Idx]; ok {
+				out = fx.M{"reports": []any{}, "crashed": true, "panic": msg}
+			}
+			tr.Tag("request-after-data-source-edit")
+			tr.Op(fx.M{"op": "request", "rid": rq.RID, "selected": true, "raws": raws, "concurrent": 1, "afterEdit": true, "out": out})
 		}
 	}
 	tr.Close()
